@@ -333,6 +333,10 @@ func (jf *JSONFamily) plainOK(e *FuncEnc, a, v string, t types.Type, s *RefSchem
 		// a schema-derived type with its own codec: handed over as it is
 		return eq(a, sx("j_some", sx("jv_enc", e.ifaceOf(t, v)))), ""
 	}
+	if isRawMessage(t) {
+		// any: the raw message is handed over as it is
+		return eq(a, sx("j_some", sx("jv_enc", e.ifaceOf(t, v)))), ""
+	}
 	switch u := t.Underlying().(type) {
 	case *types.Slice:
 		_ = u
